@@ -403,6 +403,12 @@ def r11_3_emission(ctx: Ctx, rule: str = "R11.3") -> None:
                 c = order[0][1]
                 txt = src(c)
                 comps = [n for n in ast.walk(c) if isinstance(n, (ast.ListComp, ast.GeneratorExp))]
+                for a in c.args:
+                    a2 = a.value if isinstance(a, ast.Starred) else a
+                    if isinstance(a2, ast.Name):
+                        b = resolve_name(p, a2.id, order[0][0])
+                        if isinstance(b, ast.expr):
+                            comps += [n for n in ast.walk(b) if isinstance(n, (ast.ListComp, ast.GeneratorExp))]
                 full = any(
                     src(n.generators[0].iter) == f"{sel}.sort.terms" and not n.generators[0].ifs
                     and isinstance(n.elt, ast.Call) and call_attr(n.elt) == "convert_sort_term" and n.elt.args and src(n.elt.args[0]) == src(n.generators[0].target)
